@@ -2,7 +2,7 @@
 from .. import lib, runner, arbsim
 
 PROP = "C08"
-THEOREMS = ["ArbF.grant_lt", "ArbF.shared_bus_is_owner", "ArbF.responses_isolated", "ArbF.no_preemption"]
+THEOREMS = ["ArbF.grant_lt", "ArbF.shared_bus_is_owner", "ArbF.responses_isolated", "ArbF.no_preemption", "ArbF.arbiter_preserves_handshake"]
 IMPORTS = ["SocVerif.Props.C08"]
 ORACLE = {"C08"}
 RULE = ("arbiters with 1-6 initiators, every feature subset on arbiter and initiators (respecting add()'s rules), granularities, in "
